@@ -10,7 +10,11 @@ polygons spread over both hemispheres in every container form of `latlon_from_po
 and metric-offset forms of `get_location`; direct calls of `get_polygon_sample_triangles` (mixed orientation)
 and of `get_polygon_sample{,_convex,_nonconvex}`; shares of a 16-cell barycentric grid pooled over the
 triangles; per-particle oracles on the recorded draws (cumulative-area interval, affine map); range
-attributes in every container / through `make_release`, with a DKW bound and an atom bound."""
+attributes in every container / through `make_release`, with a DKW bound and an atom bound.
+
+Third family (`_exp_reuse`, budget of the second family): one input object -- a location, a configuration, the arrays of
+the sampling functions, in every container form including single ndarrays -- used several times (groups of one release,
+repeated calls, YAML alias); every use is judged on its own against a pristine copy of the release area."""
 import importlib, math, io, json
 from fractions import Fraction as Fr
 import numpy as np
@@ -28,6 +32,15 @@ RULE = ("1..4 disjoint simple polygons (star / comb / triangles, both orientatio
         "triangles; get_polygon_sample / _convex / _nonconvex on (n,2) arrays; 16-cell barycentric grid + centre triangle pooled over "
         "triangles; per-particle pick-interval and affine-map oracles from the recorded draws; ranges with float / int bounds as list, "
         "tuple, ndarray, explicit uniform dict, through get_attrs and make_release (implicit key and attrs), DKW + atom bounds. "
+        "Third family (one input object, 2..4 uses, every use judged on its own against a pristine copy): a location -- metric offsets of "
+        "1..3 polygons around a centre (centre as list / tuple / ndarray), lon/lat polygons, a GeoJSON file name -- or the arrays of "
+        "latlon_from_poly / get_polygon_sample{,_convex,_nonconvex} / get_polygon_sample_triangles, held as nested lists, tuples, list of "
+        "arrays, one array per coordinate, or ONE (2,n) / (2,k,n) ndarray (C order, Fortran order, transposed view, float32, integer, "
+        "read-only); used by 2..4 groups of one make_release (dict or list configuration, optionally with another group in between, or the "
+        "same group dict listed several times), by a YAML configuration with an alias, by repeated make_release calls with one "
+        "configuration (with / without a config seed), by repeated get_location calls, by repeated direct calls; a two-element range "
+        "(list / tuple / ndarray / uniform dict) shared the same way; per use: count, every position inside the release area, polygon "
+        "shares, a half-plane cut on every polygon + 2, range on 10 bins. "
         "Non-trivial: every statistical experiment.")
 ASSUMPTIONS = ["np.random.rand is uniform on [0,1) (numpy legacy generator, trusted; this layer validates it)",
                "'a.e.-bijection with constant Jacobian maps uniform to uniform' is cited, not formalised",
@@ -657,6 +670,396 @@ def _exp_ranges(ctx, mk):
                    "[%r,%r]: %d of %d values repeat an earlier value (rounding explains at most %d)" % (lo, hi, rep, n, allowed), cs)
 
 
+# ----------------------------------------------------------------------------- third family: one input object, many uses
+# "all seeds", "over many draws", "configurations": a release area is rarely used once.  The same location object
+# serves several release groups (same area, several dates), the same configuration serves several make_release
+# calls, the same arrays serve several calls of the sampling functions -- and scripts compute polygons with numpy,
+# so the object is a list, a tuple, a list of arrays, or one 2-D / 3-D ndarray (C / Fortran order, a view, float64 /
+# float32 / integer, writeable or not).  Every use is judged on its own against a pristine Python copy of the
+# polygons that the implementation never sees.  Statistical tests go through binom_ok2 (second-family budget).
+def _inside_any(polys, x, y, tol):
+    """even-odd ray casting, vectorised over the points, in coordinates relative to the first vertex of each polygon
+    (small polygons far from the origin); a point within `tol` of an edge counts as inside"""
+    res = np.zeros(len(x), dtype=bool)
+    for p in polys:
+        x0, y0 = p[0]
+        xs = x - x0; ys = y - y0
+        ins = np.zeros(len(x), dtype=bool); near = np.zeros(len(x), dtype=bool)
+        n = len(p)
+        for i in range(n):
+            x1 = p[i][0] - x0; y1 = p[i][1] - y0; x2 = p[(i + 1) % n][0] - x0; y2 = p[(i + 1) % n][1] - y0
+            if y1 != y2:
+                cond = (y1 > ys) != (y2 > ys)
+                ins ^= cond & (xs < (x2 - x1) * (ys - y1) / (y2 - y1) + x1)
+            dx, dy = x2 - x1, y2 - y1
+            t = np.clip(((xs - x1) * dx + (ys - y1) * dy) / (dx * dx + dy * dy), 0.0, 1.0)
+            near |= np.hypot(xs - (x1 + t * dx), ys - (y1 + t * dy)) <= tol
+        res |= ins | near
+    return res
+
+
+def _judge_use(ctx, site, polys, x, y, n, tol, cs, what):
+    """one use of a shared input: n positions (coordinates of `polys`), all inside the release area, shares of the
+    polygons and of half-plane cuts through every polygon"""
+    ctx.oracle(len(x) == n and len(y) == n, "C17.reuse.count", site, "%s: %d positions for num=%d" % (what, len(x), n), cs)
+    if len(x) != n or n == 0:
+        return
+    _share_tests(ctx, "reuse", site, polys, _bbox_labels(polys, x, y), x, y, n, cs, extra_cuts=2)
+    # a sub-region outside every polygon has area share 0 (exchangeable particles: the first 30000 stand for all)
+    m = min(n, 30000)
+    out = np.nonzero(~_inside_any(polys, x[:m], y[:m], tol))[0]
+    ctx.oracle(len(out) == 0, "C17.reuse.outside_polygon", site,
+               "%s: %d of %d particles lie outside the release area (more than %.3g away from every polygon); first: (%r, %r); positions span x %r..%r, y %r..%r"
+               % ((what, len(out), m, tol) + ((float(x[out[0]]), float(y[out[0]])) if len(out) else (0.0, 0.0)) +
+                  (float(x.min()), float(x.max()), float(y.min()), float(y.max()))), cs)
+
+
+def _pack(form, polys):
+    """the two coordinate sequences (first, second coordinate) of one or more polygons in the container form `form`;
+    returns (form, first, second, whole) -- `whole` is a single object holding both when the form is one array"""
+    k = len(polys)
+    X = [[float(q[0]) for q in p] for p in polys]; Y = [[float(q[1]) for q in p] for p in polys]
+    if k == 1:
+        X, Y = X[0], Y[0]
+    if form == "nested_lists":
+        return form, X, Y, None
+    if form == "tuples":
+        tup = lambda a: tuple(tup(b) for b in a) if isinstance(a, list) else a
+        return form, tup(X), tup(Y), None
+    if form == "list_of_arrays":
+        if k == 1:
+            return form, np.array(X), np.array(Y), None
+        return form, [np.array(a) for a in X], [np.array(a) for a in Y], None
+    if form == "two_arrays":           # equal vertex counts (or one polygon): one array per coordinate
+        return form, np.array(X), np.array(Y), None
+    # one array for everything: shape (2, n) or (2, k, n)
+    a = np.array([X, Y], dtype=float)
+    if form == "array_view":           # a view of an array with the coordinate axis last, as np.array(corners).T gives it
+        a = np.ascontiguousarray(np.moveaxis(a, 0, -1))
+        a = np.moveaxis(a, -1, 0)
+        assert a.base is not None
+    elif form == "array_fortran":
+        a = np.asfortranarray(a)
+    elif form == "array_float32":
+        a = a.astype(np.float32)
+    elif form == "array_int":
+        a = a.astype(np.int64)
+    elif form == "array_readonly":
+        a.setflags(write=False)
+    else:
+        assert form == "array"
+    return form, a[0], a[1], a
+
+
+def _metric_polygons(rng, k, equal_nvert):
+    """k polygons in metres around (0, 0) with pairwise disjoint boxes, next to each other from west to east"""
+    base = rng.choice([15.0, 50.0, 500.0, 5000.0])
+    x = rng.uniform(-200, 200); y0 = rng.uniform(-200, 200)
+    nv = rng.randrange(4, 10)
+    out = []
+    for i in range(k):
+        r = base * rng.choice([1, 1, 2, 3])
+        x += 1.05 * r
+        cy = y0 + base * rng.uniform(-1, 1)
+        out.append(_radial_star(rng, x, cy, r, nv) if equal_nvert else _any_polygon(rng, x, cy, r)[1])
+        x += 1.05 * r
+    return out
+
+
+def _snap(polys, dtype):
+    """the polygons as the container's number type holds them (None if they are not simple any more)"""
+    if dtype == "int":
+        q = [[(float(round(a)), float(round(b))) for a, b in p] for p in polys]
+    else:
+        q = [[(float(np.float32(a)), float(np.float32(b))) for a, b in p] for p in polys]
+    if any(len(p) > 40 or not geom.is_simple(p) for p in q):
+        return None
+    return q
+
+
+def _exp_reuse(ctx, mk):
+    import os, tempfile, yaml
+    N = ctx.n(20000, 100000)
+    ring = lambda p: [[x, y] for x, y in p] + [[p[0][0], p[0][1]]]
+    # the kinds come in shuffled blocks and the container forms of the metric offsets from a shuffled deck, so that every
+    # run (36 cases = 3 blocks = 12 offset locations >= one deck) holds every kind and every container form
+    BLOCK = ["offset", "offset", "offset", "offset_multi", "lists", "lists", "geojson_path", "direct_latlon", "direct_sample",
+             "direct_triangles", "yaml:offset", "yaml:lists"]
+    DECK = ["nested_lists", "list_of_arrays", "two_arrays", "array", "array_view", "array_fortran", "array_float32", "array_int",
+            "array_readonly", "tuples"]
+    deck = []
+    tmpfiles = []
+    tmpdir = tempfile.mkdtemp(prefix="verif_c17_")
+    shared_name = os.path.join(tmpdir, "area.geojson")      # the script's one file name, rewritten for every area
+    geo_cases = [0]
+
+    def write_geojson(path, polys):
+        if ctx.rng.random() < 0.5:
+            feats = [dict(type="Feature", properties=dict(fid=1), geometry=dict(type="MultiPolygon", coordinates=[[ring(p)] for p in polys]))]
+        else:
+            feats = [dict(type="Feature", properties=dict(fid=i + 1), geometry=dict(type="Polygon", coordinates=[ring(p)])) for i, p in enumerate(polys)]
+        with open(path, "w") as f:
+            json.dump(dict(type="FeatureCollection", features=feats), f)
+
+    def degree_polygons(k, equal):
+        lay = _layout(ctx.rng, k, ctx.rng.random() < 0.4)
+        nv = ctx.rng.randrange(4, 10)
+        return [_radial_star(ctx.rng, cx, cy, r, nv) if equal else _any_polygon(ctx.rng, cx, cy, r)[1] for cx, cy, r in lay]
+
+    def degree_tol(polys):
+        # rounding of the convex combination: a few ulps of the coordinates
+        return max(1e-9 * (max(q[0] for q in p) - min(q[0] for q in p)) for p in polys) + \
+            64 * float(np.spacing(max(max(abs(a), abs(b)) for p in polys for a, b in p)))
+
+    def draw_form(k):
+        while True:
+            if not deck:
+                deck.extend(DECK); ctx.rng.shuffle(deck)
+            f = deck.pop()
+            if f != "tuples" or k == 1:
+                return f
+
+    try:
+        def one_case(c, kind, want_yaml):
+            identity = lambda lon, lat: (lon, lat)
+            to_xy = identity
+            centre = None
+            whole = None
+            # ---------------------------------------------------------------- the shared object
+            if kind in ("offset", "offset_multi"):
+                site = MK + "get_location_offset"
+                clon = ctx.rng.uniform(-170, 170); clat = ctx.rng.choice([-75.0, -40.0, 0.0, 45.0, 60.0, 78.0, ctx.rng.uniform(-80, 80)])
+                k = 1 if kind == "offset" else ctx.rng.randrange(2, 4)
+                # several polygons: the conversion needs arithmetic on the whole container, i.e. arrays (or nested
+                # lists, which numpy converts) with equal vertex counts
+                form = "nested_lists" if want_yaml else draw_form(k)
+                while True:
+                    polys = _metric_polygons(ctx.rng, k, equal_nvert=(k > 1))
+                    if form in ("array_int", "array_float32"):
+                        # whole metres / single precision: the polygon is what the array holds (the cast below is exact)
+                        polys = _snap(polys, "int" if form == "array_int" else "f32")
+                        if polys is None:
+                            continue
+                    break
+                form, X, Y, whole = _pack(form, polys)
+                cform = "list" if want_yaml else ctx.rng.choice(["list", "list", "tuple", "ndarray"])
+                cen = dict(list=[clon, clat], tuple=(clon, clat), ndarray=np.array([clon, clat]))[cform]
+                ctx.branch("reuse.center=" + cform)
+                loc = dict(center=cen, offset=whole if whole is not None else [X, Y])
+                to_xy = lambda lon, lat: _deg_to_m(lon - clon, lat - clat, clat)
+                # positions are carried in degrees: ulp(180) = 2.8e-14 degrees = 3e-9 m; the roundings of the two
+                # conversions and of the convex combination stay below 1e-7 m; 1e-6 m (+ 1e-9 of the size) is safe
+                get_tol = lambda ps: 1e-6 + 1e-9 * max(max(abs(a), abs(b)) for p in ps for a, b in p)
+                centre = [clon, clat]
+                yaml_ok = form == "nested_lists" and cform == "list"
+            elif kind in ("lists", "geojson_path", "direct_latlon"):
+                k = ctx.rng.randrange(1, 4) if kind != "geojson_path" else ctx.rng.randrange(2, 5)
+                equal = kind != "geojson_path" and k > 1 and ctx.rng.random() < 0.5
+                polys = degree_polygons(k, equal)
+                get_tol = degree_tol
+                if kind == "geojson_path":
+                    site = MK + "get_location_file"
+                    # two of three areas go to the same file name (rewritten), one to a name of its own
+                    geo_cases[0] += 1
+                    if geo_cases[0] % 3 == 0:
+                        path = os.path.join(tmpdir, "area_%d.geojson" % c); ctx.branch("reuse.geojson.own_file_name")
+                    else:
+                        path = shared_name; ctx.branch("reuse.geojson.file_name_used_before" if os.path.exists(path) else "reuse.geojson.own_file_name")
+                    tmpfiles.append(path)
+                    write_geojson(path, polys)
+                    loc = path; form = "file_name"; yaml_ok = False      # a string is not shared by reference
+                else:
+                    site = MK + ("get_location" if kind == "lists" else "latlon_from_poly")
+                    forms = ["nested_lists", "tuples", "list_of_arrays", "list_of_arrays"] + \
+                        ((["two_arrays", "array", "array", "array_view", "array_fortran", "array_readonly"]) if (k == 1 or equal) else [])
+                    form, X, Y, whole = _pack("nested_lists" if want_yaml else ctx.rng.choice(forms), polys)
+                    loc = whole if whole is not None else ([X, Y] if (want_yaml or ctx.rng.random() < 0.7) else (X, Y))
+                    yaml_ok = form == "nested_lists" and isinstance(loc, list)
+            else:
+                # the sampling functions on an (n, 2) array / an array of triangles
+                cx = ctx.rng.uniform(-170, 170); cy = ctx.rng.uniform(-75, 75); r = ctx.rng.choice([1e-4, 1e-3, 0.3, 2.0])
+                fn = ctx.rng.choice(["get_polygon_sample", "get_polygon_sample_convex", "get_polygon_sample_nonconvex"]) if kind == "direct_sample" \
+                    else "get_polygon_sample_triangles"
+                p = _convex_polygon(ctx.rng, cx, cy, r, ctx.rng.randrange(3, 13)) if fn.endswith("_convex") else _any_polygon(ctx.rng, cx, cy, r)[1]
+                polys = [p]; site = MK + fn; form = "array"; yaml_ok = False
+                get_tol = degree_tol
+                loc = np.array(p, dtype=float)
+                if kind == "direct_triangles":
+                    loc = np.array(mk.triangulate_nonconvex(loc), dtype=float)
+                    ok, msg = geom.valid_triangulation(p, [t for t in loc])
+                    ctx.oracle(ok, "C17.reuse.triangulation_invalid", MK + "triangulate_nonconvex", msg, dict(polygon=p))
+                    if not ok:
+                        return
+                # read-only arrays: only where the array does not go straight into the `triangle` package, whose compiled
+                # interface refuses read-only buffers with a ValueError (a loud refusal by a third-party library, not a
+                # statement about shares; the public entry points copy with np.stack and take read-only arrays, see above)
+                if ctx.rng.random() < 0.3 and (kind == "direct_triangles" or fn.endswith("_convex")):
+                    loc.setflags(write=False); form = "array_readonly"
+            ctx.branch("reuse.container=" + form); ctx.branch("reuse.npoly=%d" % len(polys))
+            # ---------------------------------------------------------------- the pattern of uses
+            if kind.startswith("direct"):
+                pattern = "repeat_call"
+            else:
+                pattern = "yaml_alias" if (want_yaml and yaml_ok) else \
+                    ctx.rng.choice(["groups", "groups", "groups_list_config", "groups_same_dict", "repeat_make_release", "repeat_get_location"] +
+                                   (["yaml_alias"] if yaml_ok else []))
+            ctx.branch("reuse.pattern=" + pattern)
+            nuse = ctx.rng.randrange(2, 5) if ctx.tier == "thorough" else ctx.rng.randrange(2, 4)
+            nums = [int(N * ctx.rng.choice([1, 1, 0.5])) for _ in range(nuse)]
+            # a two-element range shared in the same way (make_release patterns)
+            rng_obj = None; lo = hi = None
+            if pattern not in ("repeat_call", "repeat_get_location") and ctx.rng.random() < 0.6:
+                if ctx.rng.random() < 0.4:
+                    lo, hi = ctx.rng.choice([(0, 10), (-5, 5), (100, 350), (0, 1), (-20, -10)])
+                else:
+                    lo = ctx.rng.choice([0.0, -5.0, 100.0, -250.5, 7.25]); hi = lo + ctx.rng.choice([1.0, 10.0, 250.0, 0.5])
+                rform = ctx.rng.choice(["list", "uniform_dict"] if pattern == "yaml_alias" else ["list", "tuple", "ndarray", "ndarray", "uniform_dict"])
+                rng_obj = dict(list=[lo, hi], tuple=(lo, hi), ndarray=np.array([lo, hi]), uniform_dict=dict(distribution="uniform", min=lo, max=hi))[rform]
+                ctx.branch("reuse.range=" + rform)
+            seed = ctx.rng.randrange(2 ** 32) if ctx.rng.random() < 0.5 else None
+            # between two calls the caller may change what the object / the file name holds: the next area goes to the same
+            # file name; the array of corners is moved in place (arr += shift).  The pristine polygons follow with the same
+            # IEEE additions, so they equal the array's contents exactly.
+            between = "unchanged"; arr = None
+            if pattern in ("repeat_call", "repeat_get_location", "repeat_make_release"):
+                if kind == "geojson_path":
+                    between = ctx.rng.choice(["unchanged", "file_rewritten", "file_rewritten"])
+                else:
+                    arr = whole if whole is not None else (loc if isinstance(loc, np.ndarray) else None)
+                    if arr is not None and arr.dtype == np.float64 and arr.flags.writeable and ctx.rng.random() < 0.5:
+                        between = "array_moved_in_place"
+            ctx.branch("reuse.between_uses=" + between)
+            per_use = [polys]
+
+            def before_use(i):
+                if i == 0:
+                    return
+                if between == "unchanged":
+                    per_use.append(per_use[-1]); return
+                cur = per_use[-1]
+                if between == "file_rewritten":
+                    new = degree_polygons(ctx.rng.randrange(1, 4), False)
+                    write_geojson(loc, new)
+                else:
+                    xs = [a for p in cur for a, _ in p]; ys = [b for p in cur for _, b in p]
+                    # towards the origin (stays on the globe), by 0.2..1 of the extent
+                    dx = -math.copysign(ctx.rng.uniform(0.2, 1.0) * (max(xs) - min(xs)), sum(xs))
+                    dy = -math.copysign(ctx.rng.uniform(0.2, 1.0) * (max(ys) - min(ys)), sum(ys))
+                    if arr is whole:
+                        arr[0] += dx; arr[1] += dy            # coordinate axis first
+                    else:
+                        arr[..., 0] += dx; arr[..., 1] += dy  # (n, 2) corners / (m, 3, 2) triangles
+                    new = [[(a + dx, b + dy) for a, b in p] for p in cur]
+                per_use.append(new)
+
+            cs = dict(experiment="reuse", between_uses=between, kind=kind, container=form, pattern=pattern, polygons=polys, center=centre, nums=nums,
+                      range=[lo, hi] if rng_obj is not None else None, config_seed=seed,
+                      location_before=loc.tolist() if isinstance(loc, np.ndarray) else (dict(loc, offset=np.asarray(loc["offset"]).tolist(), center=list(loc["center"])) if isinstance(loc, dict) else loc))
+            ctx.case(key=("reuse", kind, form, pattern, c, repr(polys[0][:3])), nontrivial=True,
+                     sample=dict(experiment="reuse", kind=kind, container=form, pattern=pattern, uses=nuse, N=nums) if c < 2 else None)
+            uses = []                   # (what, lon, lat, n, depth or None)
+            grp = lambda i, n: dict(dict(date="2000-01-%02d" % (i + 1) if ctx.rng.random() < 0.6 else ["2000-01-%02d" % (i + 1), "2000-01-%02d 12:00" % (i + 2)],
+                                         num=n, location=loc, group_id=i + 1), **(dict(depth=rng_obj) if rng_obj is not None else {}))
+            with RngRecorder(ctx.sub_seed()):
+                if pattern == "repeat_call":
+                    for i, n in enumerate(nums):
+                        before_use(i)
+                        if kind == "direct_latlon":
+                            a, b = (loc[1], loc[0])
+                            lat, lon, _ = mk.latlon_from_poly(a, b, n)
+                        elif kind == "direct_sample":
+                            lon, lat = getattr(mk, fn)(loc, n)
+                        else:
+                            lon, lat, _ = mk.get_polygon_sample_triangles(loc, n)
+                        uses.append(("call %d of %d on the same arrays" % (i + 1, nuse), np.asarray(lon, dtype=float), np.asarray(lat, dtype=float), n, None))
+                elif pattern == "repeat_get_location":
+                    for i, n in enumerate(nums):
+                        before_use(i)
+                        out = mk.get_location(loc, n)
+                        uses.append(("get_location call %d of %d on the same location" % (i + 1, nuse), np.array(out["longitude"], dtype=float), np.array(out["latitude"], dtype=float), n, None))
+                elif pattern == "repeat_make_release":
+                    conf = dict(grp(0, nums[0]), **(dict(seed=seed) if seed is not None else {}))
+                    nums = [nums[0]] * nuse
+                    for i in range(nuse):
+                        before_use(i)
+                        r = mk.make_release(conf)
+                        uses.append(("make_release call %d of %d with the same configuration" % (i + 1, nuse), np.array(r["longitude"], dtype=float), np.array(r["latitude"], dtype=float),
+                                     nums[0], np.array(r["depth"], dtype=float) if rng_obj is not None else None))
+                else:
+                    if pattern == "groups_same_dict":
+                        g = grp(0, nums[0]); groups = [g] * nuse; nums = [nums[0]] * nuse
+                    else:
+                        groups = [grp(i, n) for i, n in enumerate(nums)]
+                        if ctx.rng.random() < 0.4:
+                            # another area in between
+                            groups.insert(1, dict(date="2000-02-01", num=7, location=[5.0, 60.0], group_id=99)); ctx.branch("reuse.other_group_between")
+                    conf = groups if pattern == "groups_list_config" else dict(dict(groups=groups), **(dict(seed=seed) if seed is not None else {}))
+                    if pattern == "yaml_alias":
+                        text = yaml.safe_dump(conf)
+                        assert "*id" in text, "the YAML text does not use an alias for the shared location"
+                        cs = dict(cs, yaml=text if len(text) < 4000 else text[:4000] + "...")
+                        conf = io.StringIO(text)
+                    r = mk.make_release(conf)
+                    gid = np.array(r["group_id"]); lon = np.array(r["longitude"], dtype=float); lat = np.array(r["latitude"], dtype=float)
+                    dep = np.array(r["depth"], dtype=float)
+                    if pattern == "groups_same_dict":
+                        # the uses cannot be told apart in the output: judged together (every one of them has the area shares)
+                        uses.append(("%d groups given as the same dict, together" % nuse, lon, lat, sum(nums), dep if rng_obj is not None else None))
+                    else:
+                        for i, n in enumerate(nums):
+                            m = gid == i + 1
+                            uses.append(("group %d of %d sharing one location object" % (i + 1, nuse), lon[m], lat[m], n, dep[m] if rng_obj is not None else None))
+            for u, (what, lon, lat, n, dep) in enumerate(uses):
+                pu = per_use[u] if u < len(per_use) else polys          # one entry per call; groups of one call: unchanged
+                csu = dict(cs, use=u, what=what, **(dict(polygons_at_this_use=pu, polygons_at_every_use=per_use[:len(uses)]) if between != "unchanged" else {}))
+                x, y = to_xy(lon, lat)
+                _judge_use(ctx, site, pu, np.asarray(x), np.asarray(y), n, get_tol(pu), csu, what)
+                if dep is not None and len(dep) == n:
+                    ctx.oracle(bool(np.all((dep >= lo) & (dep <= hi))), "C17.reuse.range_outside", MK + "get_attr",
+                               "%s: values outside [%r, %r]: min %r max %r" % (what, lo, hi, float(dep.min()), float(dep.max())), csu)
+                    cnt = np.histogram(dep, bins=np.linspace(lo, hi, 11))[0]
+                    for b in range(10):
+                        ctx.oracle(binom_ok2(int(cnt[b]), n, 0.1), "C17.reuse.range_uniform", MK + "get_attr",
+                                   "%s: [%r,%r]: bin %d holds %d of %d" % (what, lo, hi, b, cnt[b], n), dict(csu, counts=cnt.tolist()))
+                ctx.branch("reuse.use_%d" % min(u + 1, 4))
+
+        block = []
+        for c in range(ctx.n(36, 96)):
+            if not block:
+                block = BLOCK[:]; ctx.rng.shuffle(block)
+            kind = block.pop()
+            # a YAML configuration can only hold lists: that combination is asked for
+            want_yaml = kind.startswith("yaml:")
+            if want_yaml:
+                kind = kind[5:]
+                if kind == "offset" and ctx.rng.random() < 0.3:
+                    kind = "offset_multi"
+            ctx.branch("reuse.kind=" + kind)
+            try:
+                one_case(c, kind, want_yaml)
+            except Exception as e:
+                import traceback
+                fr = [f for f in traceback.extract_tb(e.__traceback__) if "/ladim_plugins/" in f.filename]
+                if not fr:
+                    raise                       # not raised by the implementation
+                # the run goes on (the other uses and cases are still judged); /verif/check reports an exception of the
+                # implementation on an input of the property's domain in the same way
+                ctx.oracle(False, "C17.reuse.raised", MK + fr[-1].name,
+                           "the implementation raised %r (%s line %d: %s) on a shared input (case key %r)" %
+                           (e, fr[-1].filename.split("/ladim_plugins/")[-1], fr[-1].lineno, fr[-1].line, getattr(ctx, "last_key", None)),
+                           dict(experiment="reuse", kind=kind, case_key=repr(getattr(ctx, "last_key", None)), traceback=traceback.format_exc()))
+    finally:
+        for path in set(tmpfiles):
+            try:
+                os.remove(path)
+            except OSError:
+                pass
+        try:
+            os.rmdir(tmpdir)
+        except OSError:
+            pass
+
+
 def run(ctx):
     mk = importlib.import_module("ladim_plugins.release.makrel")
     _new_tests[0] = 0
@@ -721,6 +1124,7 @@ def run(ctx):
     _exp_locations(ctx, mk)
     _exp_direct(ctx, mk)
     _exp_ranges(ctx, mk)
+    _exp_reuse(ctx, mk)
     assert _new_tests[0] <= MAX_TESTS_NEW, "second family: %d tests exceed the Bonferroni count %d" % (_new_tests[0], MAX_TESTS_NEW)
     ctx.note("statistical tests of the second family: %d (per-test level %.2e, family-wise <= %.1e)" % (_new_tests[0], 2 * _level(), ALPHA_NEW))
     # the sampling map itself is pinned bit-exactly (shared with C03)
